@@ -846,3 +846,63 @@ Proof.
   - exact Hin.
   - cbn [io_edges]. intros e He. rewrite Forall_forall in Hf. specialize (Hf e He). unfold edge_stored_ok in Hf. rewrite Hk in Hf. lia.
 Qed.
+
+(* ---------- complete and empty graphs ---------- *)
+Lemma flat_map_length_const {A B} (f : A -> list B) l k : (forall x, In x l -> length (f x) = k) ->
+  length (flat_map f l) = (length l * k)%nat.
+Proof.
+  induction l as [|a t IH]; intros H; cbn [flat_map length]; [reflexivity|].
+  rewrite app_length, IH, (H a (or_introl eq_refl)); [lia|]. intros x Hx. apply H. now right.
+Qed.
+Lemma all_pairs_length L R : 0 <= L -> 0 <= R -> gg_len (gg_all_pairs L R) = L * R.
+Proof.
+  intros HL HR. unfold gg_len, gg_all_pairs. rewrite (flat_map_length_const _ _ (Z.to_nat R)).
+  - rewrite range1_length. nia.
+  - intros x _. now rewrite map_length, range1_length.
+Qed.
+Lemma pairs_length {A} (l : list A) : 2 * gg_len (pairs l) = gg_len l * (gg_len l - 1).
+Proof.
+  unfold gg_len. induction l as [|a t IH]; cbn [pairs length]; [reflexivity|].
+  rewrite app_length, map_length, Nat2Z.inj_add. nia.
+Qed.
+
+Theorem complete_bipartite_shape : forall L R, 0 <= L -> 0 <= R -> exists G, gg_complete_bipartite L R = GGOk G /\
+  io_kind G = KBipartite /\ io_n G = L /\ io_r G = R /\ gg_nedges G = L * R /\
+  (forall u v, gio_has_edge G u v = true <-> 1 <= u <= L /\ 1 <= v <= R).
+Proof.
+  intros L R HL HR. unfold gg_complete_bipartite. rewrite new_ok by lia. cbn [gg_lift gg_bind].
+  rewrite add_edges_ok.
+  - cbn [gg_lift io_kind edge_norm io_edges]. rewrite map_id. eexists. split; [reflexivity|].
+    cbn [io_kind io_n io_r gio_with_edges]. split; [reflexivity|]. split; [reflexivity|]. split; [reflexivity|]. split.
+    + unfold gg_nedges. cbn [io_edges gio_with_edges]. unfold gg_len. rewrite insert_all_length; [|apply all_pairs_NoDup|intros e _ []].
+      pose proof (all_pairs_length L R HL HR) as E. unfold gg_len in E. cbn [length]. lia.
+    + intros u v. rewrite has_edge_In. cbn [io_kind io_edges gio_with_edges edge_norm]. rewrite insert_all_In, all_pairs_In.
+      cbn [In]. tauto.
+  - apply Forall_forall. intros [u v] Hin. apply all_pairs_In in Hin. unfold edge_ok. cbn [io_kind io_n io_r fst snd]. lia.
+Qed.
+
+Theorem complete_simple_shape : forall n, 0 <= n -> exists G, gg_complete_simple n = GGOk G /\
+  io_kind G = KSimple /\ io_n G = n /\ 2 * gg_nedges G = n * (n - 1) /\
+  (forall u v, gio_has_edge G u v = true <-> 1 <= u <= n /\ 1 <= v <= n /\ u <> v).
+Proof.
+  intros n Hn. unfold gg_complete_simple. rewrite new_ok by lia. cbn [gg_lift gg_bind].
+  assert (Hnorm : map (edge_norm KSimple) (pairs (gt_range1 n)) = pairs (gt_range1 n)).
+  { rewrite <- (map_id (pairs (gt_range1 n))) at 2. apply map_ext_in. intros [u v] Hin. apply pairs_range1_lt in Hin.
+    unfold edge_norm. cbn [fst snd]. f_equal; lia. }
+  rewrite add_edges_ok.
+  - cbn [gg_lift io_kind io_edges]. rewrite Hnorm. eexists. split; [reflexivity|].
+    cbn [io_kind io_n io_r gio_with_edges]. split; [reflexivity|]. split; [reflexivity|]. split.
+    + unfold gg_nedges. cbn [io_edges gio_with_edges]. unfold gg_len.
+      rewrite insert_all_length; [|apply pairs_NoDup, range1_NoDup|intros e _ []].
+      pose proof (pairs_length (gt_range1 n)) as E. unfold gg_len in E. rewrite range1_length in E. cbn [length]. lia.
+    + intros u v. rewrite has_edge_In. cbn [io_kind io_edges gio_with_edges]. rewrite insert_all_In. cbn [In]. split.
+      * intros [Hin|[]]. unfold edge_norm in Hin. cbn [fst snd] in Hin. apply pairs_range1_lt in Hin. lia.
+      * intros (Hu & Hv & Hne). left. unfold edge_norm. cbn [fst snd].
+        destruct (pairs_complete (gt_range1 n) (Z.min u v) (Z.max u v)) as [H|H]; try (apply range1_In; lia); [lia|exact H|].
+        apply pairs_range1_lt in H. lia.
+  - apply Forall_forall. intros [u v] Hin. apply pairs_range1_lt in Hin. unfold edge_ok. cbn [io_kind io_n io_r fst snd]. lia.
+Qed.
+
+Lemma empty_shapes : forall L R n, 0 <= L -> 0 <= R -> 0 <= n ->
+  gg_empty_bipartite L R = GGOk (mkIOG KBipartite [] L R []) /\ gg_empty_simple n = GGOk (mkIOG KSimple [] n 0 []).
+Proof. intros. unfold gg_empty_bipartite, gg_empty_simple. rewrite !new_ok by lia. split; reflexivity. Qed.
